@@ -1,7 +1,7 @@
 /-
   line-protocol handler for model "cq" (chunk queue, C17); same protocol and
   canonical output as harness/inproc/h_cq.c:
-    seq <chunksz> <tmpsz> <ndirs> <wsched> <msched> <files> <op> <op> ...
+    seq <chunksz> <tmpsz | tmpsz/q0size/q1size> <ndirs> <wsched> <msched> <files> <op> <op> ...
 -/
 import LtVerif.Model.Cq
 namespace Driver
@@ -156,12 +156,25 @@ end CqD
 
 def cqLine : List String → String
   | "seq" :: cs :: tmpsz :: ndirs :: ws :: ms :: files :: ops =>
-    match cs.toNat?, tmpsz.toNat?, ndirs.toNat?, CqD.parseW ws, CqD.parseM ms, CqD.parseFiles files with
-    | some cs, some tmpsz, some ndirs, some ws, some ms, some files =>
+    -- "G" or "G/A/B": default temp file size, then chunkqueue_set_tempdirs(q0, A) / (q1, B)
+    let tz : Option (Nat × Option (Nat × Nat)) :=
+      match tmpsz.splitOn "/" with
+      | [g] => g.toNat?.map fun g => (g, none)
+      | [g, a, b] =>
+        match g.toNat?, a.toNat?, b.toNat? with
+        | some g, some a, some b => some (g, some (a, b))
+        | _, _, _ => none
+      | _ => none
+    match cs.toNat?, tz, ndirs.toNat?, CqD.parseW ws, CqD.parseM ms, CqD.parseFiles files with
+    | some cs, some (tmpsz, per), some ndirs, some ws, some ms, some files =>
       if ndirs > 3 then "bad-op" else
       let w := CqD.initWorld cs tmpsz ndirs ws ms files
       let q : Cq := { tempSize := w.defTempSize }
-      CqD.runOps { s := { w := w, q0 := q, q1 := q }, nsrc := files.length } ops
+      let setT (v : Nat) : Cq := { tempSize := if v = 0 then w.defTempSize else v }
+      let (q0, q1) := match per with
+        | none => (q, q)
+        | some (a, b) => (setT a, setT b)
+      CqD.runOps { s := { w := w, q0 := q0, q1 := q1 }, nsrc := files.length } ops
     | _, _, _, _, _, _ => "bad-op"
   | _ => "bad-op"
 
